@@ -29,6 +29,8 @@ type PropSpec struct {
 	Bounded    []BoundedStandin  `json:"bounded_standins"`
 	Replays    map[string]string `json:"replays"` // obligation-name regexp -> driver
 	Anchors    []string          `json:"anchors"` // function names whose disappearance is a violation
+	Files      []string          `json:"files"`   // verify every function declared in these files (path suffixes)
+	FileKinds  []string          `json:"file_kinds"`
 }
 
 type PropFunc struct {
@@ -165,6 +167,33 @@ func cmdCheck(args []string) {
 			funcKinds[r.Fn] = m
 		}
 	}
+	done := map[string]bool{}
+	for _, r := range results {
+		done[r.Fn] = true
+	}
+	if len(spec.Files) > 0 {
+		fk := map[string]bool{}
+		for _, k := range spec.FileKinds {
+			fk[k] = true
+		}
+		for _, fn := range e.FuncsInFiles(spec.Files) {
+			if done[funcDisplayName(fn)] {
+				continue
+			}
+			r := func() (r *FuncResult) {
+				defer func() {
+					if x := recover(); x != nil {
+						r = &FuncResult{Fn: funcDisplayName(fn), Errors: []string{fmt.Sprintf("outside subset: engine panic: %v", x)}}
+					}
+				}()
+				return e.VerifyFunction(fn)
+			}()
+			results = append(results, r)
+			if len(fk) > 0 {
+				funcKinds[r.Fn] = fk
+			}
+		}
+	}
 	inProp := func(ob *Obligation) bool {
 		if ob.Kind == "cover" {
 			return true
@@ -200,13 +229,28 @@ func cmdCheck(args []string) {
 		to = 60
 	}
 	cfg := &SolverCfg{TimeoutS: to, Dir: dir, Jobs: runtime.NumCPU(), Keep: *dump != "", Seed: seed}
-	solveAll(results, cfg, inProp)
-
 	claimsPath := filepath.Join(*root, "claims", id+".txt")
 	claimed := map[string]bool{}
 	for _, l := range readLines(claimsPath) {
 		claimed[l] = true
 	}
+	// quick tier: obligations that are neither claimed nor listed as known findings are only counted,
+	// not solved (they cannot raise an alarm); thorough and --update-claims solve everything.
+	solveThis := inProp
+	if *tier == "quick" && !*update && len(claimed) > 0 && !*verbose {
+		solveThis = func(ob *Obligation) bool {
+			if !inProp(ob) {
+				return false
+			}
+			if ob.Kind == "cover" || claimed[ob.Name] {
+				return true
+			}
+			_, isKnown := known[ob.Name]
+			return isKnown
+		}
+	}
+	solveAll(results, cfg, solveThis)
+
 	byName := map[string]*Obligation{}
 	resOf := map[string]*FuncResult{}
 	outside := map[string]bool{}
@@ -325,6 +369,9 @@ func cmdCheck(args []string) {
 		if k, ok := known[name]; ok {
 			knownHit = append(knownHit, k)
 			continue
+		}
+		if ob.Status == "" {
+			ob.Status = "not-solved"
 		}
 		undecidedNew = append(undecidedNew, name+" ["+ob.Status+"]")
 	}
